@@ -850,6 +850,96 @@ impl World {
         }
     }
 
+    /// Comparison operators of `Cc<Link>` on two linked structures (the left one possibly cyclic, the right one always
+    /// finite) against a model that walks plain index tables.
+    pub fn cmp_chain(&self, left: i64, right: i64, diff: i64) {
+        use std::cmp::Ordering;
+        let auto_was = compat::cfg_read().map(|c| c.0);
+        if auto_was == Some(true) {
+            compat::cfg_set_auto(false);
+        }
+        let m = ((left & 0xFF).clamp(1, 6)) as usize;
+        let cyclic = (left >> 8) & 1 == 1;
+        let entry = (((left >> 12) & 0xF) as usize) % m;
+        let n = right.clamp(1, 24) as usize;
+        let (dpos, dsign) = ((diff.max(0) / 2) as usize, if diff % 2 == 0 { 1 } else { -1 });
+        // tables: (value, next index)
+        let lt: Vec<(i64, Option<usize>)> = (0..m).map(|i| (10 + i as i64, if i + 1 < m { Some(i + 1) } else if cyclic { Some(entry) } else { None })).collect();
+        let mut rt: Vec<(i64, Option<usize>)> = Vec::new();
+        let mut li = Some(0usize);
+        for j in 0..n {
+            // the right structure unrolls the left one; past its end (finite left) it continues with fresh values
+            let base = match li {
+                Some(i) => lt[i].0,
+                None => 100 + j as i64,
+            };
+            rt.push((if j == dpos { base + dsign } else { base }, if j + 1 < n { Some(j + 1) } else { None }));
+            li = li.and_then(|i| lt[i].1);
+        }
+        let model = {
+            let (mut i, mut j) = (0usize, 0usize);
+            loop {
+                match lt[i].0.cmp(&rt[j].0) {
+                    Ordering::Equal => {}
+                    o => break o,
+                }
+                match (lt[i].1, rt[j].1) {
+                    (None, None) => break Ordering::Equal,
+                    (None, Some(_)) => break Ordering::Less,
+                    (Some(_), None) => break Ordering::Greater,
+                    (Some(a), Some(b)) => {
+                        i = a;
+                        j = b;
+                    }
+                }
+            }
+        };
+        let build = |t: &[(i64, Option<usize>)]| -> Vec<Cc<Link>> {
+            let nodes: Vec<Cc<Link>> = t.iter().map(|(v, _)| Cc::new(Link { v: *v, next: std::cell::RefCell::new(None) })).collect();
+            for (i, (_, nx)) in t.iter().enumerate() {
+                if let Some(k) = nx {
+                    *nodes[i].next.borrow_mut() = Some(nodes[*k].clone());
+                }
+            }
+            nodes
+        };
+        let (ln, rn) = (build(&lt), build(&rt));
+        let (l, r) = (&ln[0], &rn[0]);
+        let got: [(&str, bool); 12] = [
+            ("l == r", (l == r) == (model == Ordering::Equal)),
+            ("l != r", (l != r) == (model != Ordering::Equal)),
+            ("r == l", (r == l) == (model == Ordering::Equal)),
+            ("l.partial_cmp(r)", l.partial_cmp(r) == Some(model)),
+            ("r.partial_cmp(l)", r.partial_cmp(l) == Some(model.reverse())),
+            ("l.cmp(r)", l.cmp(r) == model),
+            ("r.cmp(l)", r.cmp(l) == model.reverse()),
+            ("l < r", (l < r) == (model == Ordering::Less)),
+            ("l <= r", (l <= r) == (model != Ordering::Greater)),
+            ("l > r", (l > r) == (model == Ordering::Greater)),
+            ("l >= r", (l >= r) == (model != Ordering::Less)),
+            ("l == l.clone()", !cyclic && *l == l.clone() || cyclic),
+        ];
+        // release everything by reference counting: open the cycle first
+        for x in ln.iter().chain(rn.iter()) {
+            *x.next.borrow_mut() = None;
+        }
+        drop(ln);
+        drop(rn);
+        if auto_was == Some(true) {
+            compat::cfg_set_auto(true);
+        }
+        self.sync();
+        self.stats.borrow_mut().bump("linked_structures_compared");
+        if let Some((what, _)) = got.iter().find(|g| !g.1) {
+            self.fail(
+                "O-FWD.linked",
+                format!("`{}` on Cc<Link> disagrees with the comparison of the values (left: {} nodes{}, right: chain of {} that {}; the values compare {:?})", what, m,
+                    if cyclic { format!(", last one pointing back at node {}", entry) } else { String::new() }, n,
+                    if dpos < n { format!("differs from the left structure's unrolling at position {}", dpos) } else { "unrolls the left structure".to_string() }, model),
+            );
+        }
+    }
+
     // ------------------------------------------------------------------ configuration
 
     pub fn cfg_op(&self, code: OpCode, v: i64) {
